@@ -15,7 +15,7 @@ import (
 // ---------------------------------------------------------------------------
 // mxjconf pathevents <raw.ndjson> <trace.ndjson> <summary.json>
 // Turns the calls of the query / update methods observed while the repository's OWN test suite
-// ran (wrappers of harness/repotrace/zz_verif_wrap_test.go.txt, put around the mechanically renamed
+// ran (wrappers of harness/repotrace/zz_verif_wrap.go.txt, put around the mechanically renamed
 // methods in a scratch copy) into sessions of Trace_Path.tla: a "reset" event with the receiver before
 // the call, then the call with its arguments parsed into the specification's form and the observed
 // results.  The argument strings are parsed HERE, independently of the package, and only the plainly
